@@ -464,7 +464,11 @@ def make_writelines(cls):
             sp_h = b.ctx.heap[sp.oid] if hasattr(b, 'ctx') else None
             if sp_h is not None:
                 sp_h.fields['_kind'] = b.const(kind)
-            return dict(self=sp, sequence=b.symlist('sequence', [('item', TStr(kind))], scalar=True))
+            seq = b.symlist('sequence', [('item', TStr(kind))], scalar=True)
+            if hasattr(b, 'ctx'):
+                # "any iterable object producing strings" (docstring): it may be a generator - one traversal only
+                b.ctx.heap[seq.oid].fields['oneshot'] = True
+            return dict(self=sp, sequence=seq)
 
         def requires(self, v):
             return spawn_requires(v)
